@@ -74,6 +74,16 @@ class LuceneCheck:
         # TODO check lower bound <= higher bound taking into account wildcard and numbers
         return iter([])
 
+    def check_phrase(self, item, parents):
+        return iter([])
+
+    def check_regex(self, item, parents):
+        return iter([])
+
+    @_check_children
+    def check_open_range(self, item, parents):
+        return iter([])
+
     def check_word(self, item, parents):
         if self.space_re.search(item.value):
             yield "A single term value can't hold a space %s" % item
